@@ -210,6 +210,22 @@ static void run_sb(long long rounds) {
 	}
 }
 
+/* the same store-buffering litmus through p_atomic_pointer_set/get */
+static volatile uintptr_t PX[LN * 8], PY[LN * 8]; static uintptr_t PR1[LN], PR2[LN]; static long long st_psb_rounds, st_psb_00;
+static void *psb_a(void *u) { int i; (void)u; for (i = 0; i < LN; i++) { __atomic_store_n(&pa, i + 1, __ATOMIC_RELAXED); while (__atomic_load_n(&pb, __ATOMIC_RELAXED) <= i); p_atomic_pointer_set(&PX[i * 8], (ppointer)(uintptr_t)0x100000001ULL); PR1[i] = (uintptr_t)p_atomic_pointer_get(&PY[i * 8]); } return NULL; }
+static void *psb_b(void *u) { int i; (void)u; for (i = 0; i < LN; i++) { __atomic_store_n(&pb, i + 1, __ATOMIC_RELAXED); while (__atomic_load_n(&pa, __ATOMIC_RELAXED) <= i); p_atomic_pointer_set(&PY[i * 8], (ppointer)(uintptr_t)0x100000001ULL); PR2[i] = (uintptr_t)p_atomic_pointer_get(&PX[i * 8]); } return NULL; }
+static void run_psb(long long rounds) {
+	long long batches = rounds / LN + 1, b; int i;
+	scen = "store-buffering-pointer";
+	for (b = 0; b < batches && vh_nviol < vh_max_viol; b++) {
+		pthread_t ta, tb;
+		for (i = 0; i < LN; i++) { PX[i * 8] = 0; PY[i * 8] = 0; PR1[i] = PR2[i] = 7; }
+		pa = pb = 0;
+		pthread_create(&ta, NULL, psb_a, NULL); pthread_create(&tb, NULL, psb_b, NULL); pthread_join(ta, NULL); pthread_join(tb, NULL);
+		for (i = 0; i < LN; i++) { st_psb_rounds++; if (PR1[i] == 0 && PR2[i] == 0) { st_psb_00++; viol("store-buffering-00", "x=1;r1=y || y=1;r2=x through p_atomic_pointer_set/get observed r1=r2=0 (pointer set/get are not full barriers)"); } else if ((PR1[i] && PR1[i] != 0x100000001ULL) || (PR2[i] && PR2[i] != 0x100000001ULL)) viol("torn-word", "pointer get returned %lx / %lx", (unsigned long)PR1[i], (unsigned long)PR2[i]); }
+	}
+}
+
 static volatile pint mp_flag[LN * 16];
 #ifdef HB_MODE
 static pint mp_data[LN * 16];              /* plain payload: TSan sees a race if set/get do not synchronise */
@@ -239,9 +255,9 @@ int main(int argc, char **argv) {
 	p_libsys_init();
 	if (!strcmp(mode, "value")) run_value(&r, n);
 	else if (!strcmp(mode, "conc")) { for (t = 0; t < 10 && vh_nviol < vh_max_viol; t++) run_conc_test(t, T, n); if (T <= 16) { run_refcount_rounds(T < 2 ? 2 : (T > 4 ? 4 : T), 1, n / 4 + 100); run_refcount_rounds(2, 2, n / 4 + 100); } }
-	else { run_sb(n); run_mp(n / 4); }
+	else { run_sb(n); run_psb(n / 2); run_mp(n / 4); }
 	p_libsys_shutdown();
-	printf("{\"ev\":\"stats\",\"mode\":\"%s\",\"model\":\"%s\",\"value_cases\":%lld,\"exhaustive_pairs\":%lld,\"conc_ops\":%lld,\"refcount_rounds\":%lld,\"threads\":%d,\"sb_rounds\":%lld,\"sb_outcomes\":[%lld,%lld,%lld,%lld],\"mp_rounds\":%lld,\"viol\":%d,\"wall\":%.2f}\n",
-	       mode, VH_MODEL, st_value_cases, st_pairs_exhaustive, st_conc_ops, st_rr_rounds, T, st_sb_rounds, st_sb_00, st_sb_01, st_sb_10, st_sb_11, st_mp_rounds, vh_nviol, vh_now() - t0);
+	printf("{\"ev\":\"stats\",\"mode\":\"%s\",\"model\":\"%s\",\"value_cases\":%lld,\"exhaustive_pairs\":%lld,\"conc_ops\":%lld,\"refcount_rounds\":%lld,\"threads\":%d,\"sb_rounds\":%lld,\"sb_pointer_rounds\":%lld,\"sb_outcomes\":[%lld,%lld,%lld,%lld],\"mp_rounds\":%lld,\"viol\":%d,\"wall\":%.2f}\n",
+	       mode, VH_MODEL, st_value_cases, st_pairs_exhaustive, st_conc_ops, st_rr_rounds, T, st_sb_rounds, st_psb_rounds, st_sb_00, st_sb_01, st_sb_10, st_sb_11, st_mp_rounds, vh_nviol, vh_now() - t0);
 	return 0;
 }
